@@ -14,10 +14,11 @@ git checkout -q go.mod
 cp $out/$(basename $demo) $pkg/
 with=$(go test -vet=off -count=1 -run "$re" ./$pkg/ 2>&1 | tail -1)
 git checkout -q go.mod
-git stash -q
+# (no git stash: refs/stash is shared by all worktrees of a repository)
+git apply -R $out/patch.diff || { echo "cannot revert the patch"; exit 2; }
 without=$(go test -vet=off -count=1 -run "$re" ./$pkg/ 2>&1 | tail -1)
 git checkout -q go.mod
-git stash pop -q
+git apply $out/patch.diff
 echo "suite-with-change (non-ok lines): [$suite]"
 echo "demo with change:    $with"
 echo "demo without change: $without"
